@@ -316,7 +316,10 @@ def oracle_other_aggs(chk, case, rng):
         old = case["old"].get(str(i))
         want = sl + (torch.tensor(old, dtype=torch.float64) if old else 0)
         got = torch.tensor(res["grads"][i][1], dtype=torch.float64) if res["grads"][i] else None
-        if got is None or (got - want).abs().max() > 1e-6 * scale:
+        # CAGrad's weights come from a conic solver: the two runs see the columns in different orders (the
+        # defaulted inputs are a Python set) and agree to the solver's tolerance only (thorough run, seed 12:
+        # 1.1e-5 relative on the unchanged tree)
+        if got is None or (got - want).abs().max() > (2e-4 if name == "CAGrad" else 1e-6) * scale:
             chk.violation(
                 f"C01 with {name}: .grad of leaf {i} is not old + its slice of aggregator(J)",
                 {"kind": "c01-agg", "case": case, "agg": name, "k": k,
